@@ -269,6 +269,24 @@ def unit_bounded_inplace(tier=None, seed=0):
         if r.get("confirmed"):
             bad = {"scenario": s, **r}
             break
+    if bad is None:
+        # an in-memory training set handed to the rater is not modified -- whatever estimator pipeline is behind the
+        # regressor (tree ensembles and the scaled support-vector regressors)
+        import numpy as np
+        from nanite.rate import IndentationRater
+        cur = IU._curve()
+        cur.fit_model(preprocessing=["compute_tip_position", "correct_force_offset", "correct_tip_offset"],
+                      model_key="hertz_para")
+        X0, y0 = IndentationRater.load_training_set()
+        for reg_ in ("Extra Trees", "SVR (RBF kernel)", "SVR (linear kernel)"):
+            X, y = np.array(X0, dtype=float), np.array(y0, dtype=float)
+            cur.rate_quality(regressor=reg_, training_set=(X, y))
+            ne += 1
+            if not (np.array_equal(X, np.array(X0, dtype=float), equal_nan=True) and np.array_equal(y, y0)):
+                bad = {"scenario": "C10.rate_quality.frame.training_set", "input": f"in-memory training set, regressor {reg_}",
+                       "observed": f"caller's X changed by up to {float(np.nanmax(np.abs(X - np.array(X0, dtype=float)))):.3g}",
+                       "required": "unchanged"}
+                break
     res = UnitResult(unit="bounded.inplace_edits")
     res.bounded.append(BoundedResult(
         bid="C10.bounded.inplace_edit_equals_fresh_object", ok=bad is None, evaluations=ne, distinct=ne,
